@@ -11,6 +11,7 @@ a double given by its IEEE bits. From a case we produce
   * an independent Python opinion (fractions.Fraction, correctly rounded int/int true division).
 The proved specification (Props/C04.lean) is the oracle; every context must give the spec vector.
 """
+import os
 import re
 import struct
 import time
@@ -33,6 +34,39 @@ ASSUMPTIONS = [
 
 IMPL_ENV = {"SV_TIMEOUT_MS": "60000"}
 OPS = ["<", "=<", ">", ">=", "=:=", "=\\="]
+
+
+def repo_path():
+    """the source tree the harness was built from (/repo, or the private worktree of tools/mutant_check.sh)."""
+    if os.environ.get("SV_REPO"):
+        return os.environ["SV_REPO"]
+    hb = os.environ.get("SV_HARNESS_BIN")
+    if hb:
+        w = os.path.join(os.path.dirname(os.path.dirname(os.path.dirname(os.path.abspath(hb)))), "repo")
+        if os.path.isdir(os.path.join(w, "src")):
+            return w
+    return "/repo"
+
+
+def load_extractor():
+    import importlib.util
+    spec = importlib.util.spec_from_file_location("evaltables", os.path.join(core.ROOT, "extract", "evaltables.py"))
+    mod = importlib.util.module_from_spec(spec)
+    spec.loader.exec_module(mod)
+    return mod
+
+
+def extract():
+    """regenerates lean/ScryerModel/Extracted/CmpInstrs.lean from the current dispatch.rs; Props/C04.lean proves
+    (by evaluation over the extracted table) that all 24 instructions test exactly `CmpOp.accepts`."""
+    ev = load_extractor()
+    try:
+        tbl = ev.cmp_instr_table(repo_path())
+        ev.write_if_changed(os.path.join(core.LEAN, "ScryerModel", "Extracted", "CmpInstrs.lean"), ev.render_cmp(tbl))
+    except ev.ExtractError as x:
+        return [core.Finding("disagreement", {"family": "extract", "class": "cmp-instructions-not-recognised"},
+                             "extract/evaltables.py no longer recognises the comparison instructions of dispatch.rs: %s" % x, None)]
+    return [None]
 FIX_MIN, FIX_MAX = -(2 ** 55), 2 ** 55 - 1
 
 
@@ -403,10 +437,10 @@ def run(ctx):
         bn = boundary_numbers()
         allp = [(x, y) for x in bn for y in bn]
         if tier == "quick":
-            allp = rng.sample(allp, 350)
+            allp = rng.sample(allp, 220)
         for x, y in allp:
             pairs.append((x, y, rng.getrandbits(2)))
-        n = 900 if tier == "quick" else 40000
+        n = 560 if tier == "quick" else 30000
         for _ in range(n):
             a, b = gen_pair(rng)
             pairs.append((a, b, rng.getrandbits(2)))
@@ -510,7 +544,7 @@ def run(ctx):
         "evaluations": len(cases) * 5,
         "pairs": len(cases),
         "distinct_nontrivial": len(distinct),
-        "rule": "ordered pairs of numbers (int / rational / double-by-bits) built from boundary values (2^k±3 for k in 24..1100, the overflow threshold 2^1024-2^970, subnormals, the underflow threshold 2^-1075), rounding-critical tails below the 53rd bit, huge numerators/denominators, and neighbours of the first operand in every representation (same value, 1 ulp off, off by one, halfway to the next double, a relative 2^-80 off); plus (thorough: all / quick: 350 sampled) pairs over %d boundary numbers. Each pair is evaluated in 5 contexts x 12 comparisons. non-trivial = not both operands small fixnums; distinct by operand pair" % len(boundary_numbers()),
+        "rule": "ordered pairs of numbers (int / rational / double-by-bits) built from boundary values (2^k±3 for k in 24..1100, the overflow threshold 2^1024-2^970, subnormals, the underflow threshold 2^-1075), rounding-critical tails below the 53rd bit, huge numerators/denominators, and neighbours of the first operand in every representation (same value, 1 ulp off, off by one, halfway to the next double, a relative 2^-80 off); plus (thorough: all / quick: 220 sampled) pairs over %d boundary numbers. Each pair is evaluated in 5 contexts x 12 comparisons. non-trivial = not both operands small fixnums; distinct by operand pair" % len(boundary_numbers()),
         "samples": [c["prolog"] for c in cases[:3]] + [c["prolog"] for c in cases[-3:]],
         "traces_validated_against_impl": agree,
         "disagreements_checked": len(cases) - agree,
